@@ -16,8 +16,10 @@ from vflib import core
 from vflib.core import Broken, finish, validate_trace
 
 
-def run_history(ctx, idx, nseq, nconc, hold_us, skip_every=3):
-    """One history on a fresh semaphore. Returns the normalised event list."""
+def run_history(ctx, idx, nseq, nconc, hold_us, skip_every=3, damage=False):
+    """One history on a fresh semaphore. Returns the normalised event list.
+    damage: the registry written by the first run (src/targets.lst) is cut in the middle before the second run, so that the
+    lock-protected section that reads it takes its error path."""
     d = ctx.path("hist-%d" % idx)
     os.makedirs(d, exist_ok=True)
     sem = "/vf-c46-%d-%d" % (os.getpid(), idx)
@@ -51,6 +53,10 @@ def run_history(ctx, idx, nseq, nconc, hold_us, skip_every=3):
     try:
         for i in range(nseq):
             rcs.append(reap(spawn(lock=(i % skip_every != skip_every - 1))))
+            reg = os.path.join(d, "src/targets.lst")
+            if damage and i == 0 and os.path.exists(reg):
+                txt = open(reg).read()
+                open(reg, "w").write(txt[:len(txt) // 2])
         ps = [spawn() for _ in range(nconc)]
         for p in ps:
             rcs.append(reap(p))
@@ -89,12 +95,13 @@ def run(ctx):
         ctx.violation("model:Progress", "Lock.tla: liveness property Progress violated", None)
     # ---- JUDGE ----
     rnd = random.Random(ctx.seed)
-    hists = [(3, 4, 15000), (0, 6, 8000), (4, 2, 20000)]
+    hists = [(3, 4, 15000, False), (0, 6, 8000, False), (4, 2, 20000, False),
+             (4, 3, 10000, True)]       # error path of a lock-protected section (damaged registry), then concurrent runs
     if ctx.thorough:
-        hists += [(rnd.randint(0, 6), rnd.randint(2, 12), rnd.choice([2000, 8000, 30000])) for _ in range(12)]
+        hists += [(rnd.randint(0, 6), rnd.randint(2, 12), rnd.choice([2000, 8000, 30000]), rnd.random() < 0.3) for _ in range(12)]
     ntr, nev, samples = 0, 0, []
-    for i, (ns, nc, hold) in enumerate(hists):
-        ev = run_history(ctx, i, ns, nc, hold)
+    for i, (ns, nc, hold, dmg) in enumerate(hists):
+        ev = run_history(ctx, i, ns, nc, hold, damage=dmg)
         if not any(e["e"] == "CSEnter" for e in ev):
             raise Broken("no CSEnter event recorded: hooks are not compiled in / trace not written")
         v = validate_trace(ctx, "mfront/LockTrace", "LockTrace.cfg", ev, name="lock")
@@ -107,7 +114,7 @@ def run(ctx):
             what = ("invariant %s violated by a recorded mfront history" % v["violated"]) if v["violated"] else \
                 ("recorded history not explained by Lock.tla at event %d: %s" % (v["maxl"], at))
             ctx.violation("trace:%s" % (v["violated"] or "rejected"), what,
-                          {"history": {"sequential": ns, "concurrent": nc, "hold_us": hold}, "trace": v["file"],
+                          {"history": {"sequential": ns, "concurrent": nc, "hold_us": hold, "damaged_registry": dmg}, "trace": v["file"],
                            "stopped_at": v["maxl"], "event": at})
     return finish(ctx, "model_checking", {
         "states": mc.distinct + pinned.distinct + live.distinct, "transitions": mc.generated + pinned.generated + live.generated,
@@ -115,7 +122,7 @@ def run(ctx):
         "samples": samples, "mc_coverage": {k: v[1] for k, v in mc.coverage.items()},
         "constants": "Procs=3, MaxCS=2 (safety, exhaustive); Procs=2 (liveness)",
         "pinned_model_rejected_with": pinned.violated,
-        "histories": [{"sequential": a, "concurrent": b, "hold_us": c} for a, b, c in hists]},
+        "histories": [{"sequential": a, "concurrent": b, "hold_us": c, "damaged_registry": e} for a, b, c, e in hists]},
         ["the hooks log CSEnter after sem_wait and SemPost before sem_post: logged sections are contained in real ones",
          "file order of O_APPEND writes is the order of the events",
          "model bounds: 3 processes x 2 sections (exhaustive), implementation: up to 12 concurrent processes"])
